@@ -97,4 +97,55 @@ CLAIMS["C18"] = {
     "technique": "Lean 4 proof (fold = spec by induction with a depth invariant) + differential correspondence",
 }
 
+_NATIVE = ("Three-way correspondence on generated single-instruction cases (structured operands, page-placed memory operands, boundary "
+           "values): implementation = Lean model on every case, and both = the sandbox host's real CPU (single-stepped) wherever the case is "
+           "expressible natively. ")
+CLAIMS["C01"] = {
+    "text": "Lean theorems over the executable instruction model: register views read back what was written; MUL/IMUL/DIV/IDIV results "
+            "against their arithmetic definitions; ALU result values; every instruction leaves control state and segment bases untouched; "
+            "the model implements the 312 pinned forms. " + _NATIVE + "Per-form operand plumbing is sampled, not proved.",
+    "design_ref": "DESIGN.md section 7, C01",
+    "note": COMMON_NOTE + "Known finding C01-idiv64-divisor-sign (IDIV r/m64 treats the divisor as unsigned; the pinned suite encodes it).",
+    "technique": "Lean 4 proof (bv_decide/omega over the instruction model) + three-way differential correspondence (code, model, real CPU)",
+    "category": "proof",
+}
+CLAIMS["C02"] = {
+    "text": "Lean theorems, for all operands and incoming flag words at widths 8/16/32/64: the flags the model computes for ADD, ADC, SUB/CMP, "
+            "INC/DEC, NEG, SHL/SHR equal the SDM's definitions (carry, overflow, sign, zero, parity of the low byte), and flags outside the "
+            "instruction's set are preserved. " + _NATIVE,
+    "design_ref": "DESIGN.md section 7, C02", "note": COMMON_NOTE + "Architecturally undefined flags are masked per mnemonic when comparing with the CPU.",
+    "technique": "Lean 4 proof (bit-blasting with bv_decide at each width) + three-way differential correspondence (code, model, real CPU)",
+}
+CLAIMS["C03"] = {
+    "text": "Lean theorems: after CMP d,s the condition predicates decide exactly the architectural unsigned/signed comparisons, for all operands "
+            "at all widths and all incoming flags; conditions read only CF/PF/ZF/SF/OF; RIP after every direct branch form is target-if-taken else "
+            "next_ip; JRCXZ/JECXZ test RCX/ECX; CALL goes to its target. " + _NATIVE,
+    "design_ref": "DESIGN.md section 7, C03", "note": COMMON_NOTE,
+    "technique": "Lean 4 proof (condition semantics via bv_decide composed with the CMP flag theorem) + three-way differential correspondence",
+}
+CLAIMS["C04"] = {
+    "text": "PARTIAL. The property as stated is false of the pinned code (every stack slot sits operand-size bytes above the architectural "
+            "address; recorded as known finding C04-slot-shift because the pinned tests encode it); Lean proves the negation on a witness and, for "
+            "all states, the part that holds: RSP delta, exact operand stored, PUSH/POP and CALL/RET round trips, RET-at-top finish. " + _NATIVE +
+            "Any deviation from the real CPU other than the listed slot shift is reported as a violation.",
+    "design_ref": "DESIGN.md section 7, C04 and section 9 (known findings)", "note": COMMON_NOTE,
+    "technique": "Lean 4 proof (partial theorems + machine-checked counterexample to the full claim) + three-way differential correspondence with the known shift factored out",
+    "category": "proof",
+}
+CLAIMS["C05"] = {
+    "text": "Lean theorems for every register file, scale and displacement: effective address = base + index*scale + disp modulo 2^64, or modulo "
+            "2^32 zero-extended under the address-size prefix; FS/GS bases added modulo 2^64; LEA = effective address without segment base, "
+            "truncated to the operand size. " + _NATIVE,
+    "design_ref": "DESIGN.md section 7, C05", "note": COMMON_NOTE + "FS-relative cases are not run natively (FS is the host's TLS base).",
+    "technique": "Lean 4 proof (omega over toNat arithmetic for all addressing forms) + three-way differential correspondence with steered addresses",
+}
+CLAIMS["C06"] = {
+    "text": "Lean theorems: DIV/IDIV fail exactly on a zero divisor or a quotient that does not fit and complete otherwise; misaligned XORPS "
+            "memory operands fail; memory operands fail exactly outside readable/writable mapped bytes (C08/C09 theorems); no failure is a crash. "
+            + _NATIVE + "Outcome (completes vs faults) is compared with the real CPU's signal.",
+    "design_ref": "DESIGN.md section 7, C06",
+    "note": COMMON_NOTE + "Known finding C06-idiv64-divisor-sign shares its cause with C01's.",
+    "technique": "Lean 4 proof (fault-iff theorems) + three-way differential correspondence comparing outcomes with CPU faults",
+}
+
 NOT_YET = {}
